@@ -22,6 +22,15 @@ pub struct Cors {
 impl Cors {
     pub const MAX_AGE: &'static str = "86400";
 
+    // an origin is allowed only if it is, as a whole, one of the comma separated entries
+    pub fn is_origin_in_list(allow_origins: &str, origin: &str) -> bool {
+        if origin.len() == 0 {
+            return false
+        }
+
+        allow_origins.split(",").any(|allowed_origin| allowed_origin.trim() == origin)
+    }
+
     pub fn get_vary_header_value() -> String {
         Header::_ORIGIN.to_string()
     }
@@ -94,7 +103,7 @@ impl Cors {
         let origin = boxed_origin.unwrap();
         let origin_value = format!("{}", origin.value);
 
-        let is_valid_origin = allow_origins.contains(&origin_value);
+        let is_valid_origin = Cors::is_origin_in_list(&allow_origins, &origin_value);
         if !is_valid_origin {
             return Ok(headers)
         }
@@ -165,7 +174,7 @@ impl Cors {
         let origin = boxed_origin.unwrap();
         let origin_value = format!("{}", origin.value);
 
-        let is_valid_origin = allow_origins.contains(&origin_value);
+        let is_valid_origin = Cors::is_origin_in_list(&allow_origins, &origin_value);
         if !is_valid_origin {
             return Ok(headers)
         }
